@@ -25,12 +25,12 @@ Two kinds of evidence, both reproducible with the scripts named:
 out of /repo's working tree again (by `git revert -n`, for five commits by a hand-made patch;
 nothing is committed), runs the repository's own tests (they pass in every case: the defects were
 invisible to them), runs the quick check of the property named in §7 and expects exit 1 with a
-VIOLATION line, then restores /repo; `tools/revert_hist.sh` does the equivalent for thirteen older
+VIOLATION line, then restores /repo; `tools/revert_hist.sh` does the equivalent for fourteen
 commits that can no longer be reverted on HEAD, by comparing /repo's tree at the commit with the
-tree at its parent. Result: all 58 repairs are detected when removed
+tree at its parent. Result: all 60 repairs are detected when removed
 (`selftest/revert_report.txt`, `selftest/revert_hist_report.txt`).
 
-**(b) %d changes written by independent sub-agents** in eight rounds of 40. Each agent received only
+**(b) %d changes written by independent sub-agents** in nine rounds of 40. Each agent received only
 the text of one property and a scratch worktree (nothing from /verif; from round 2 on also a
 two-line summary of the ideas already used for that property, so that it would look elsewhere;
 from round 5 on also the request to make the change correct for every input of normal size and
@@ -41,14 +41,14 @@ re-confirmed every one in a scratch worktree (suite passes with the change, demo
 demo passes without it) before keeping it as `/verif/seeded/<id>-<k>/` (`patch.diff`,
 `demo_test.go`, `notes.md`, `meta.json`). Detected by the property's quick check as it stood
 when the seed arrived: round 1 27/40, round 2 23/40, round 3 29/40, round 4 25/40, round 5
-12/40, round 6 14/40, round 7 15/40, round 8 20/40 (165 of 320 overall) - the agents were told what had been tried, so each round looked
+12/40, round 6 14/40, round 7 15/40, round 8 20/40, round 9 16/40 (181 of 360 overall) - the agents were told what had been tried, so each round looked
 where the checks had not yet been shown to look. Every miss was analysed and the check
 strengthened *in general terms* (a new family, alphabet member, leg or oracle, never a
 special case for the seed); after that %d of %d are detected by the quick check of the
 property they break, %d more by the check of another property whose business they really are
 (a defect that only shows between goroutines, or only in the second evaluation of a process,
 is C09's or C08's to report whichever property the agent was given), and %d are correctly not
-reported: one breaks no listed property (C12-9, within C04's stated tolerance), the others were
+reported: two break no listed property (C12-9 and C12-18, within C04's stated tolerance), the others were
 *neutralised by later repairs* - each needs a route (a panic inside the parser, a typed nil pointer
 reaching an operator) that the `fix:` commits of §7 have closed, so that on the current tree the
 change no longer breaks its property and its own demonstration passes (`outside_claim` in their
